@@ -8,7 +8,7 @@
           and `.scopeExit`.
   What is not proved is recorded as `…_target` definitions at the end.
 
-  Definitions (in `Lemmas/MemTry.lean`, `MemLive.lean`, `MemSlow.lean`):
+  Definitions (namespace `Arena.Mem`, in `Lemmas/MemTry.lean`, `MemLive.lean`, `MemSlow.lean`):
   * `Carved cfg c p size np`     : `[p, p+size)` is cut from the free side of chunk `c`, whose bump
                                    position moves from `c.pos` to `np`
                                    (up: `c.pos ≤ p ∧ p+size ≤ np ≤ contentEnd`; down:
@@ -25,7 +25,7 @@ import BumpProof.Lemmas.MemExLive
 set_option linter.unusedSimpArgs false
 
 namespace C01
-open Arena Rs
+open Arena Arena.Mem Rs
 
 /-! ## Part 1: the fast path -/
 
@@ -250,7 +250,7 @@ def liveOK_invariant_target : Prop :=
 /-! ## Non-vacuity: concrete states / inputs meeting the hypotheses (see `Lemmas/MemEx.lean`) -/
 
 section NonVacuity
-open Arena.Ex
+open Arena.Mem.Ex
 
 -- Part 1: a valid bump request on which the three fast paths succeed
 example : C11.Valid cfgUp.up (bumpProps cfgUp stUp L8 Hints.custom) := exValidUp
